@@ -105,7 +105,173 @@ def _search(seed, obname):
     return {"confirmed": False, "tried": len(candidates)}
 
 
+# ------------------------------------------------------------------------------------------------------------
+# to_fingerprint(item): the leaf rendering.  The fingerprint separates two option values only if the rendering is injective;
+# repr() is (assumed) injective on the builtin values options take, str() is not (str('1') == str(1)).
+
+REPR = z3.Function("builtin_repr", z3.IntSort(), z3.IntSort())
+
+
+def _leaf_unit():
+    is_dict = z3.Function("isinstance_dict", z3.IntSort(), z3.BoolSort())
+    rep = Callee("repr", ["x"], result_kind="int", ensures=[("builtin repr", lambda e: e.result == REPR(e.x))])
+    return PyUnit("Options.get_fingerprint.to_fingerprint[leaf]", {"C48": None}, FILE, "CompilationOptions.get_fingerprint.to_fingerprint",
+                  [("item", "any")],
+                  requires=[("kernel: item is not a dict (the dict branch sorts the items and recurses)", lambda e: Not(is_dict(e.item)))],
+                  ensures=[("a non-dict option value is rendered by repr() - the rendering assumed injective - and by nothing weaker",
+                            lambda e: e.result == REPR(e.item))],
+                  callees={"repr": rep}, native=_native_leaf, search=lambda seed, ob: _native_leaf({}, ob), options={})
+
+
+def _native_leaf(model, obname):
+    """option values of different types with the same str() must not share a fingerprint"""
+    mod = load_source_module(FILE, "dvsubject_Options")
+    pairs = [("cdivision", "False", False), ("language_level", "3", 3), ("cplus", "1", 1), ("gdb_debug", "None", None)]
+    for key, a, b in pairs:
+        fps = []
+        for v in (a, b):
+            o = mod.CompilationOptions(mod.default_options)
+            if key == "cdivision":
+                o.compiler_directives = dict(o.compiler_directives, cdivision=v)
+            else:
+                setattr(o, key, v)
+            fps.append(o.get_fingerprint())
+        if fps[0] == fps[1]:
+            return {"inputs": {"option": key, "values": [repr(a), repr(b)]}, "actual": "same fingerprint", "expected": "different fingerprints",
+                    "confirmed": True, "obligation": obname,
+                    "how": "Options.py loaded from source; two CompilationOptions differing only in the TYPE of this option value"}
+    return {"confirmed": False, "tried": len(pairs)}
+
+
+# ------------------------------------------------------------------------------------------------------------
+# Cache.transitive_fingerprint: what is fed into the digest
+
+CACHE_FILE = "Cython/Build/Cache.py"
+FH = z3.Function("file_hash", z3.IntSort(), z3.IntSort())
+EXT = z3.Function("path_ext", z3.IntSort(), z3.IntSort())
+FP = z3.Function("get_fingerprint", z3.IntSort(), z3.IntSort())
+DIGEST = z3.Function("sha256_of_fed_data", z3.ArraySort(z3.IntSort(), z3.BoolSort()), z3.IntSort())
+# the only dependencies the digest may skip: files the Cython compiler never reads (C / C++ sources and headers)
+C_FAMILY_EXTS = [".c", ".cpp", ".cc", ".cxx", ".c++", ".h", ".hpp", ".hh", ".hxx", ".h++"]
+
+
+def _skippable(x):
+    return Or(*[EXT(x) == intern_id(s) for s in C_FAMILY_EXTS])
+
+
+class _DepInv:
+    modifies_heap = ["set.mem"]
+
+    def holds(self, ex, st, st0):
+        h = st.heap
+        m = st.vars["m"].addr
+        deps = st0.vars["dependencies"].addr
+        k = st.vars["_k0"].t
+        j = z3.Int("j!dep")
+        return [("the source file's hash has been fed", h.mem(m, FH(ival_of(st0.vars["filename"])))),
+                ("every dependency visited so far that is not a C/C++ file has been fed",
+                 z3.ForAll([j], Implies(And(j >= 0, j < k, Not(_skippable(st0.heap.el(deps, j)))), h.mem(m, FH(st0.heap.el(deps, j)))))),
+                ("the dependency list is not modified", And(h.len(deps) == st0.heap.len(deps), h.els(deps) == st0.heap.els(deps))),
+                ("index", And(k >= 0, k <= h.len(deps)))]
+
+    def decreases(self, ex, st):
+        return st.heap.len(st.vars["dependencies"].addr) - st.vars["_k0"].t
+
+
+def ival_of(v):
+    return v.t if hasattr(v, "t") else v.addr
+
+
+def _tf_post(e):
+    if e.result is None:
+        return True           # OSError while reading a file: no fingerprint, the cache is not used (a miss)
+    m = e.vars["m"].addr
+    deps = e.dependencies
+    j = z3.Int("j!post")
+    fed = e.h.memset(m)
+    return And(z3.Select(fed, FH(e.filename)),
+               z3.ForAll([j], Implies(And(j >= 0, j < e.h0.len(deps), Not(_skippable(e.h0.el(deps, j)))), z3.Select(fed, FH(e.h0.el(deps, j))))),
+               z3.Select(fed, FP(e.flags)), z3.Select(fed, FP(e.compilation_options)),
+               e.result == DIGEST(fed))
+
+
+def _tf_unit():
+    sha = Callee("hashlib.sha256", ["data"], result_kind="ref:set",
+                 modifies=lambda e: [("alloc",)],
+                 ensures=[("a fresh digest object, fed with the initial data", lambda e: And(e.h.mem(e.result, e.data), e.result >= z3.Int("H0.alloc")))])
+    upd = Callee("set.update", ["self", "data"], result_kind="none", modifies=lambda e: [("set", e.self)],
+                 ensures=[("update() feeds the data", lambda e: e.h.memset(e.self) == z3.Store(e.h0.memset(e.self), e.data, z3.BoolVal(True)))])
+    hexd = Callee("set.hexdigest", ["self"], result_kind="int", ensures=[("the digest of everything fed", lambda e: e.result == DIGEST(e.h.memset(e.self)))])
+    fh = Callee("file_hash", ["path"], result_kind="int", ensures=[("content hash of the file", lambda e: e.result == FH(e.path))])
+    srt = Callee("sorted", ["xs"], result_kind=lambda ex, e: __import__("dv.pyfe", fromlist=["PRef"]).PRef("list", e.xs),
+                 ensures=[])
+    splitext = Callee("os.path.splitext", ["p"],
+                      result_kind=lambda ex, e: __import__("dv.pyfe", fromlist=["PTuple"]).PTuple(
+                          [__import__("dv.pyfe", fromlist=["PAny"]).PAny(ex.fresh("root")), __import__("dv.pyfe", fromlist=["PAny"]).PAny(EXT(e.p))]),
+                      ensures=[])
+    gfp1 = Callee("FingerprintFlags.get_fingerprint", ["self"], result_kind="int", ensures=[("", lambda e: e.result == FP(e.self))])
+    gfp2 = Callee("CompilationOptions.get_fingerprint", ["self"], result_kind="int", ensures=[("", lambda e: e.result == FP(e.self))])
+    return PyUnit("Cache.transitive_fingerprint", {"C48": None}, CACHE_FILE, "Cache.transitive_fingerprint",
+                  [("self", "ref:obj:Cache"), ("filename", "any"), ("dependencies", "ref:list"), ("compilation_options", "ref:obj:CompilationOptions"),
+                   ("flags", "ref:obj:FingerprintFlags")],
+                  requires=[("dependencies is a list (length >= 0)", lambda e: e.h0.len(e.dependencies) >= 0)],
+                  ensures=[("the digest is fed with the hash of the source, of EVERY dependency that is not a C/C++ source or header, and with "
+                            "the fingerprints of the extension flags and of the compilation options (or no fingerprint is produced)", _tf_post)],
+                  callees={"hashlib.sha256": sha, "set.update": upd, "set.hexdigest": hexd, "file_hash": fh, "sorted": srt,
+                           "os.path.splitext": splitext, "FingerprintFlags.get_fingerprint": gfp1, "CompilationOptions.get_fingerprint": gfp2},
+                  native=_native_tf, search=lambda seed, ob: _native_tf({}, ob),
+                  options={"invariants": {0: _DepInv()}, "opaque_names": ("__version__",), "identity_methods": ("encode",),
+                           "elem_kind": {"list": "any"}, "fields": {}})
+
+
+def _native_tf(model, obname):
+    """a change to any non-C dependency must change the fingerprint"""
+    import os
+    import tempfile
+    import shutil
+    import sys
+    if cextract_repo() not in sys.path:
+        sys.path.insert(0, cextract_repo())
+    from dv import cextract
+    cextract.ensure_repo_on_path()
+    from Cython.Build import Cache as C
+    from Cython.Compiler import Options
+    d = tempfile.mkdtemp(prefix="dv-cache-")
+    try:
+        src = os.path.join(d, "m.pyx")
+        open(src, "w").write("x = 1\n")
+        opts = Options.CompilationOptions(Options.default_options)
+        for name in ("dep.pxd", "inc.pxi", "inc.inc", "data.txt", "helper.py", "noext"):
+            dep = os.path.join(d, name)
+            open(dep, "w").write("# a\n")
+            cache = C.Cache(os.path.join(d, "cache"))
+            f1 = cache.transitive_fingerprint(src, [dep], opts)
+            open(dep, "w").write("# b, changed\n")
+            for fn in (getattr(C, "file_hash", None),):
+                if hasattr(fn, "uncached"):
+                    pass
+            # file_hash is memoised per path for the process lifetime: use a fresh module state for the second reading
+            import importlib
+            C2 = importlib.reload(C)
+            f2 = C2.Cache(os.path.join(d, "cache")).transitive_fingerprint(src, [dep], opts)
+            if f1 is not None and f1 == f2:
+                return {"inputs": {"dependency": name}, "actual": "same fingerprint after the dependency changed", "expected": "different fingerprint",
+                        "confirmed": True, "obligation": obname, "how": "Cython.Build.Cache imported from the working tree; a dependency file rewritten between two calls (module reloaded to drop the file_hash memo)"}
+        return {"confirmed": False, "tried": 6}
+    finally:
+        shutil.rmtree(d, ignore_errors=True)
+
+
+def cextract_repo():
+    from dv import cextract
+    return cextract.REPO
+
+
 def units(tier):
+    return _units_main(tier) + [_leaf_unit(), _tf_unit()]
+
+
+def _units_main(tier):
     to_fp = Callee("to_fingerprint", ["item"], result_kind="int")
     u = PyUnit("Options.get_fingerprint", {"C48": None}, FILE, "CompilationOptions.get_fingerprint",
                [("self", "ref:obj:CompilationOptions")],
